@@ -15,7 +15,7 @@ _classes: Dict[str, Any] = {}
 def shape_key(case: dict) -> str:
     fields = [[f["name"], f["alias"], f["req"]] for f in case["fields"]]
     vals = [[v["name"], sorted(v["deps"]), v["fld"], sorted(v["disc"]), v["style"]] for v in case["vals"]]
-    return json.dumps([fields, vals, case.get("variant", ""), case.get("split", 0), case.get("wo", "")])
+    return json.dumps([fields, vals, case.get("variant", ""), case.get("split", 0), case.get("wo", ""), bool(case.get("depreq"))])
 
 
 def pn(name: str) -> str:
@@ -34,7 +34,7 @@ def class_source(case: dict) -> str:
     split = case.get("split", 0)
     wo = case.get("wo", "")
     lines = ["from dataclasses import dataclass, field, InitVar",
-             "from apischema import alias, validator, ValidationError",
+             "from apischema import alias, validator, ValidationError, dependent_required",
              "from apischema.objects import get_alias", "CALLS = []", "OUT = {}", "CTOR = [0]", ""]
 
     def fields_block():
@@ -46,6 +46,8 @@ def class_source(case: dict) -> str:
                 out.append(f"    {pn(f['name'])}: {tp}" + (f" = field(metadata={md})" if md else ""))
             else:
                 out.append(f"    {pn(f['name'])}: {tp} = field(default=0" + (f", metadata={md}" if md else "") + ")")
+        if case.get("depreq"):
+            out.append(f"    deps_ab = dependent_required({{{pn('a')}: [{pn('b')}]}})")
         out.append(f"    def __post_init__(self{', ' + pn(wo) if wo else ''}):")
         out.append("        CTOR[0] += 1")
         if variant in ("method", "property"):
